@@ -14,7 +14,7 @@ import numpy as _np
 import z3
 
 from .engine import Engine, PathAbort
-from .values import SV, SB, SIdx, lift, bexpr, mkbool, s_max, s_min, is_sym, _is_special
+from .values import SV, SB, SIdx, lift, bexpr, mkbool, s_max, s_min, s_fmax, s_fmin, is_sym, _is_special
 from . import ufs
 
 
@@ -124,7 +124,7 @@ _BIN = {
     "greater": _sym2(op.gt, _np.greater), "less": _sym2(op.lt, _np.less),
     "greater_equal": _sym2(op.ge, _np.greater_equal), "less_equal": _sym2(op.le, _np.less_equal),
     "equal": _sym2(op.eq, _np.equal), "not_equal": _sym2(op.ne, _np.not_equal),
-    "maximum": s_max, "minimum": s_min, "fmax": s_max, "fmin": s_min,
+    "maximum": s_max, "minimum": s_min, "fmax": s_fmax, "fmin": s_fmin,
     "bitwise_or": _or, "bitwise_and": _and, "logical_or": _or, "logical_and": _and,
     "power": _sym2(op.pow, _np.power),
 }
